@@ -187,12 +187,38 @@ func (af *astFunc) condOf(b *cfg.Block) ast.Expr {
 	if !ok {
 		return nil
 	}
+	// a case expression of a tag switch: go/cfg emits the bare expression; the condition is `tag == expr`
+	if cc, ok := b.Succs[0].Stmt.(*ast.CaseClause); ok && b.Succs[0].Kind == cfg.KindSwitchCaseBody {
+		if sw := af.switchOf(cc); sw != nil && sw.Tag != nil {
+			for _, ce := range cc.List {
+				if ce == e {
+					return &ast.BinaryExpr{X: sw.Tag, Op: token.EQL, Y: e, OpPos: e.Pos()}
+				}
+			}
+		}
+	}
 	if tv, ok := af.pkg.TypesInfo.Types[e]; ok {
 		if bt, ok := tv.Type.Underlying().(*types.Basic); ok && bt.Info()&types.IsBoolean != 0 {
 			return e
 		}
 	}
 	return nil
+}
+
+// switchOf finds the switch statement a case clause belongs to.
+func (af *astFunc) switchOf(cc *ast.CaseClause) *ast.SwitchStmt {
+	var out *ast.SwitchStmt
+	ast.Inspect(af.decl.Body, func(n ast.Node) bool {
+		if sw, ok := n.(*ast.SwitchStmt); ok {
+			for _, st := range sw.Body.List {
+				if st == ast.Stmt(cc) {
+					out = sw
+				}
+			}
+		}
+		return out == nil
+	})
+	return out
 }
 
 func normAstFact(f astFact) astFact {
